@@ -22,9 +22,8 @@ void lemma_distrust(void)
   unsigned fin0 = G_fin.calls, mtd0 = G_mtd.calls, get0 = G_get.calls, auth0 = G_auth.calls, stlo0 = G_stlo.calls, rmk0 = G_rmk.calls, add0 = G_add.calls;
   qtask t = Atm_distrust(self, enc, &K);
   if (K.nonempty) {
-    KeySet c = R_Atm_distrust_k0.keyIds;
-    Atm_distrust_k0(self, R_Atm_distrust_k0.encryption, &c, R_Atm_distrust_k0.promise);
-    Atm_distrust_k0_0(R_Atm_distrust_k0_0.promise);
+    RUN_Atm_distrust_k0
+    RUN_Atm_distrust_k0_0
     __CPROVER_assert(FINISHED_ONCE_WITH(fin0, t), "[lemma.distrust_finishes_its_task_once_at_the_end] promise finished exactly once, by the last continuation");
   } else {
     __CPROVER_assert(t == TASK_READY && G_fin.calls == fin0, "[lemma.distrust_of_no_keys_is_a_ready_task] nothing to do");
@@ -46,9 +45,8 @@ void lemma_makeTrustDecisions(void)
   qtask t = Atm_makeTrustDecisions(self, enc, &KA, &KD);
   __CPROVER_assert(G_auth.calls == auth0 + 1 && G_dis.calls == dis0, "[lemma.authenticate_before_distrust] distrust has not started when authenticate is called");
   int tl1 = tl;
-  KeySet c = R_Atm_makeTrustDecisions_k0.keyIdsForDistrusting;
-  Atm_makeTrustDecisions_k0(self, R_Atm_makeTrustDecisions_k0.encryption, &c, R_Atm_makeTrustDecisions_k0.promise);
-  Atm_makeTrustDecisions_k0_0(R_Atm_makeTrustDecisions_k0_0.promise);
+  RUN_Atm_makeTrustDecisions_k0
+  RUN_Atm_makeTrustDecisions_k0_0
   __CPROVER_assert(G_auth.calls == auth0 + 1 && G_auth.enc == enc && KS_EQ(G_auth.keys, KA) && G_dis.calls == dis0 + 1 && G_dis.enc == enc && KS_EQ(G_dis.keys, KD),
                    "[lemma.keys_for_authentication_go_to_authenticate_and_keys_for_distrusting_to_distrust] once each, unchanged");
   __CPROVER_assert(tl1 == ((enc == g_e && KA.has_pair) ? AUTHENTICATED : tl0) && tl == ((enc == g_e && KD.has_pair) ? MANUALLY_DISTRUSTED : tl1),
@@ -64,6 +62,9 @@ void lemma_authenticate(void)
   qstr enc = nondet_int(); KeySet K; __CPROVER_assume(KS_WF(K));
   int policy = nondet_int();      /* the answer of securityPolicy(enc) */
   int tl0 = tl, pp0 = pp;
+  /* the answer of the storage-level setTrustLevel (the keys whose level was really modified); only a variant of authenticate
+     that calls the storage itself looks at it */
+  ModifiedKeys M; __CPROVER_assume(STL_ANSWER(M, enc, K, tl0, AUTHENTICATED));
   unsigned fin0 = G_fin.calls, mp0 = G_mp.calls, datk0 = G_datk.calls, get0 = G_get.calls, pol0 = G_pol.calls;
   qtask t = Atm_authenticate(self, enc, &K);
   if (!K.nonempty) {
@@ -73,27 +74,24 @@ void lemma_authenticate(void)
   }
   int tl1 = tl;
   __CPROVER_assert(tl1 == ((enc == g_e && K.has_pair) ? AUTHENTICATED : tl0), "[lemma.authenticate_sets_exactly_the_named_keys_to_authenticated] first step");
-  KeySet c1 = R_Atm_authenticate_k0.keyIds;
-  Atm_authenticate_k0(self, R_Atm_authenticate_k0.encryption, &c1, R_Atm_authenticate_k0.promise);
+  RUN_Atm_authenticate_k0
   __CPROVER_assert(G_pol.calls == pol0 + 1 && G_pol.enc == enc, "[lemma.policy_of_the_same_encryption] securityPolicy(enc) asked once");
-  KeySet c2 = R_Atm_authenticate_k0_0.keyIds;
-  Atm_authenticate_k0_0(self, policy, R_Atm_authenticate_k0_0.encryption, &c2, R_Atm_authenticate_k0_0.promise);
+  RUN_Atm_authenticate_k0_0
   if (policy == TOAKAFA) {
     __CPROVER_assert(G_mp.calls == mp0, "[lemma.toakafa_demotion_precedes_the_postponed_decisions] makePostponedTrustDecisions not yet called");
-    KeySet c3 = R_Atm_authenticate_k0_0_0.keyIds;
-    Atm_authenticate_k0_0_0(self, R_Atm_authenticate_k0_0_0.encryption, &c3, R_Atm_authenticate_k0_0_0.promise);
+    RUN_Atm_authenticate_k0_0_0
   }
   __CPROVER_assert(G_datk.calls == datk0 + (policy == TOAKAFA ? 1u : 0u) && (policy != TOAKAFA || (G_datk.enc == enc && KS_OWNERS_ARE(G_datk.owners, K))),
                    "[lemma.automatically_trusted_keys_are_demoted_under_toakafa_only_and_for_the_owners_being_authenticated] distrustAutomaticallyTrustedKeys");
   __CPROVER_assert(tl == ((policy == TOAKAFA && enc == g_e && K.has_owner && tl1 == AUTOMATICALLY_TRUSTED) ? AUTOMATICALLY_DISTRUSTED : tl1),
                    "[lemma.no_other_trust_level_moves] trust level of the witness key after authentication and demotion");
   __CPROVER_assert(G_mp.calls == mp0 + 1 && G_mp.enc == enc && KS_VALUES_ARE(G_mp.senders, K) && G_mp.senders.nonempty,
-                   "[lemma.postponed_decisions_of_exactly_the_authenticated_keys_as_sender_keys_are_made] makePostponedTrustDecisions(enc, K.values()), never with an empty list");
+                   "[lemma.the_postponed_decisions_that_fire_are_those_whose_sender_key_is_in_K_exactly_K_never_all_senders] makePostponedTrustDecisions(enc, K.values()); never an empty list, which the storage answers with the decisions of ALL sender keys");
   __CPROVER_assert(pp == pp0, "[lemma.postponed_store_is_touched_only_by_makePostponedTrustDecisions] postponed entry of the witness unchanged so far");
   if (policy == TOAKAFA)
-    Atm_authenticate_k0_0_0_0(self, R_Atm_authenticate_k0_0_0_0.promise);
+    RUN_Atm_authenticate_k0_0_0_0
   else
-    Atm_authenticate_k0_0_1(self, R_Atm_authenticate_k0_0_1.promise);
+    RUN_Atm_authenticate_k0_0_1
   __CPROVER_assert(FINISHED_ONCE_WITH(fin0, t), "[lemma.authenticate_finishes_its_task_once_at_the_end] promise finished exactly once, by the last continuation");
 }
 
@@ -113,10 +111,9 @@ void lemma_makePostponedTrustDecisions(void)
   PostponedResult R; __CPROVER_assume(GET_ANSWER(R, enc, G_mp.senders, pp0));
 #define LISTED (enc == g_e && (S.has_s || !S.nonempty))     /* the witness sender key is among the sender keys asked for (an empty list asks for all) */
   __CPROVER_assume(!MP_F1(R, enc, pp0));
-  RUN_MP_K0(&R)
-  KeySet ka = R_Atm_makePostponedTrustDecisions_k0_0.keysBeingAuthenticated, kd = R_Atm_makePostponedTrustDecisions_k0_0.keysBeingDistrusted;
-  Atm_makePostponedTrustDecisions_k0_0(self, R_Atm_makePostponedTrustDecisions_k0_0.encryption, &ka, &kd, R_Atm_makePostponedTrustDecisions_k0_0.promise);
-  Atm_makePostponedTrustDecisions_k0_0_0(R_Atm_makePostponedTrustDecisions_k0_0_0.promise);
+  RUN_Atm_makePostponedTrustDecisions_k0
+  RUN_Atm_makePostponedTrustDecisions_k0_0
+  RUN_Atm_makePostponedTrustDecisions_k0_0_0
   __CPROVER_assert(G_mtd.calls == mtd0 + 1 && G_mtd.enc == enc && KS_EQ(G_mtd.KA, R.t) && KS_EQ(G_mtd.KD, R.f),
                    "[lemma.the_answered_decisions_are_handed_to_makeTrustDecisions_unchanged] authentications as keys for authentication, distrustings as keys for distrusting");
   __CPROVER_assert((!(LISTED && pp0 == PP_T) || G_mtd.KA.has_pair) && (!(LISTED && pp0 == PP_F) || G_mtd.KD.has_pair),
@@ -152,12 +149,10 @@ void lemma_handleMessage(void)
                    "[lemma.the_senders_own_key_is_looked_up] trustLevel(encryption of the element, bare JID of the sender, sender key of the e2ee metadata)");
   /* the trust level of the sender's key arrives */
   int stl = nondet_int();
-  Atm_handleMessage_k0(self, stl, R_Atm_handleMessage_k0.senderJid, R_Atm_handleMessage_k0.trustMessageElement, R_Atm_handleMessage_k0.encryption,
-                       R_Atm_handleMessage_k0.senderKey, R_Atm_handleMessage_k0.promise);
+  RUN_Atm_handleMessage_k0
   int pp1 = pp;
-  KeySet ka = R_Atm_handleMessage_k0_0.keysBeingAuthenticated, kd = R_Atm_handleMessage_k0_0.keysBeingDistrusted;
-  Atm_handleMessage_k0_0(self, R_Atm_handleMessage_k0_0.encryption, &ka, &kd, R_Atm_handleMessage_k0_0.promise);
-  Atm_handleMessage_k0_0_0(R_Atm_handleMessage_k0_0_0.promise);
+  RUN_Atm_handleMessage_k0_0
+  RUN_Atm_handleMessage_k0_0_0
 #define MOVES (stl == AUTHENTICATED && (sender == gh_own_bare || sender == g_o))
 #define HOLDS (stl != AUTHENTICATED && (sender == gh_own_bare || sender == g_o))
   __CPROVER_assert(G_mtd.calls == mtd0 + 1 && G_mtd.enc == TME_ENC(MSG_TME(msg)), "[lemma.one_round_of_trust_decisions_under_the_encryption_of_the_element] makeTrustDecisions called once");
